@@ -183,7 +183,37 @@ fn interleaved<I: Iterator>(o: &mut Obs, name: &'static str, t: &mut Tape, mk: i
     }
     if ha != h0 || hb_ != h0 {
         o.set_fail(FailKind::IterUnstable, name, "a re-created / interleaved iterator produced a different sequence".into());
+        return;
     }
+    if t.choose(2) == 1 {
+        adaptors(o, name, t, mk());
+    }
+}
+
+/// The other ways of driving an iterator (`Iterator` methods a type may override): they must
+/// return normally and finish within the bound as well; nothing is demanded of their values.
+fn adaptors<I: Iterator>(o: &mut Obs, name: &'static str, t: &mut Tape, mut it: I) {
+    o.op(name);
+    let bound = o.iter_bound;
+    let mut consumed = 0usize;
+    for _ in 0..1 + t.choose(5) {
+        match t.choose(7) {
+            0 => consumed += it.next().is_some() as usize,
+            1 => consumed += it.nth(t.choose(4)).is_some() as usize,
+            2 => {
+                let _ = it.size_hint();
+            }
+            3 => consumed += it.by_ref().take(bound + 1).count(),
+            4 => consumed += it.by_ref().take(bound + 1).last().is_some() as usize,
+            5 => consumed += it.by_ref().step_by(1 + t.choose(3)).take(bound + 1).count(),
+            _ => consumed += it.by_ref().skip(t.choose(4)).take(bound + 1).fold(0usize, |a, _| a + 1),
+        }
+        if consumed > bound {
+            o.set_fail(FailKind::IterBound, name, format!("iterator driven through adaptors yielded more than {bound} items"));
+            return;
+        }
+    }
+    o.res(consumed as u64);
 }
 
 fn ex_header<'a, P: RtcpPacketParser<'a>>(p: &P, which: usize, o: &mut Obs) {
@@ -1019,6 +1049,11 @@ pub fn run_compound(d: &[u8], t: &mut Tape, o: &mut Obs) {
     });
     if later_fail {
         o.probes[3] += 1;
+    }
+    if t.choose(2) == 1 {
+        if let Ok(c2) = Compound::parse(d) {
+            adaptors(o, "Compound::next", t, c2);
+        }
     }
 }
 
